@@ -277,11 +277,19 @@ func (p *pkgInfo) comparisonsWith(fn, needle string) []string {
 		default:
 			return true
 		}
+		// a literal is recorded as written, any other expression (a variable, a conversion) only as <expr>,
+		// so that renaming the variable does not change the fact
+		side := func(e ast.Expr) string {
+			if bl, ok := e.(*ast.BasicLit); ok {
+				return bl.Value
+			}
+			return "<expr>"
+		}
 		xs, ys := exprString(be.X), exprString(be.Y)
 		if strings.Contains(xs, needle) {
-			res = append(res, be.Op.String()+" "+ys)
+			res = append(res, be.Op.String()+" "+side(be.Y))
 		} else if strings.Contains(ys, needle) {
-			res = append(res, xs+" "+be.Op.String())
+			res = append(res, side(be.X)+" "+be.Op.String())
 		}
 		return true
 	})
